@@ -684,7 +684,15 @@ namespace cgi {
 				}
 			}
 			
-			env_path_info_ = pool_.add(util::urldecode(path,path+strlen(path)));
+			// '+' is a literal character in the path component of a URL; only %XX is an escape there
+			std::string escaped_path;
+			for(char const *pp=path;*pp;pp++) {
+				if(*pp=='+')
+					escaped_path+="%2B";
+				else
+					escaped_path+=*pp;
+			}
+			env_path_info_ = pool_.add(util::urldecode(escaped_path));
 			env_.add("PATH_INFO",env_path_info_); 
 
 			update_time();
